@@ -9,7 +9,7 @@ import (
 	vsql "github.com/nuetzliches/hookaido/internal/verifsql"
 )
 
-// verif:harness props=C15,C12 tprops=C01 tier=quick weight=120 maxsteps=2000000000
+// verif:harness props=C15,C12 tier=quick weight=120 maxsteps=2000000000 tonly=C15
 // verif:bounds LARGE batches on the SQLite backend (SQL model): 40 queued messages already in the table, EnqueueBatch of B items with B from {300, 600} (thorough adds 1100, 2100) under max_depth from {off, 40+B (just fits), 40+B-1 (one too many), 40+B/2}; optionally one item of the batch re-uses an existing id, at position 0, B/2+1 or B-1: the batch is stored completely or not at all, whatever its size
 func VerifC15SQLiteLargeBatchAllOrNothing() {
 	sizes := []int{300, 600}
